@@ -28,7 +28,8 @@
     canretry <ok|cls>  -> 1 | 0   (the model's `canRetry`)
     shared <strict> <headB resps> (ans <resps> | transport | ownercancel) <cancelB 0|1> <npatchTries> {<resps>}* <ncommitTries> {<resps>}* <manA resps> <manB resps>
       (two legacy pushes sharing one upload: B joins while A's session POST is outstanding)
-      -> "A: <events> res=<ok|err> | B: <events> res=<ok|err> | T: <events of the one transfer>"
+      -> "A: <events> res=<ok|err> | B: <events> res=<ok|err> | T: <events of the one transfer> | hang=<-|A|B|AB>"
+         (which push does not return until its context is ended from outside)
     legacy <strict 0|1> <nlayers> {<head resps> <post resps> <npatchTries> {<resps>}* <ncommitTries> {<resps>}*}* <manifest resps>
       (<resps> := <n> {<status> <loc 0|1>}*: the answers to the physical requests of one exchange)
       -> "<events L<i>[h|p|a|c]:<METHOD>:<status> … M:<METHOD>:<status>> res=<ok|err>"
@@ -309,7 +310,7 @@ def handle (toks : List String) : Option String :=
       let r := sharedPush strict ⟨headB, post, cancelB, pa, co, manA, manB⟩
       let sh := fun (l : List LegEv) => joinWith " " (l.map showLegEv)
       let okS := fun (b : Bool) => if b then "ok" else "err"
-      pure s!"A: {sh r.logA} res={okS r.okA} | B: {sh r.logB} res={okS r.okB} | T: {sh r.logT}") rest
+      pure s!"A: {sh r.logA} res={okS r.okA} | B: {sh r.logB} res={okS r.okB} | T: {sh r.logT} | hang={if r.hangB then "B" else "-"}") rest
   | "legacy" :: rest =>
     runTP (do
       let strict ← pBool
